@@ -347,6 +347,78 @@ pub fn run(_tier: &str) -> Report {
             Ok(Ok(())) => {}
         }
     }
+    // ---- a sample of REAL endpoints (C16's quantifier): the decoded request equals the encoded one (compared through Debug, the
+    // request types have no PartialEq) and re-encodes to the identical message
+    {
+        use ruma_common::directory::{Filter, RoomNetwork, RoomTypeFilter};
+        let filters: Vec<Filter> = {
+            let mut v = vec![];
+            for term in [None, Some("".to_owned()), Some("a b&c=d".to_owned()), Some("\u{e9}".to_owned())] {
+                for types in [vec![], vec![RoomTypeFilter::Default], vec![RoomTypeFilter::Space], vec![RoomTypeFilter::Default, RoomTypeFilter::Space, RoomTypeFilter::from(Some("org.x"))]] {
+                    let mut f = Filter::new();
+                    f.generic_search_term = term.clone();
+                    f.room_types = types;
+                    v.push(f);
+                }
+            }
+            v
+        };
+        for filter in &filters {
+            for limit in [None, Some(10u32)] {
+                for since in [None, Some("t/1?x".to_owned())] {
+                    for network in [RoomNetwork::Matrix, RoomNetwork::All, RoomNetwork::ThirdParty("irc".to_owned())] {
+                        for server in [None, Some("s.org:8448")] {
+                            n += 1;
+                            let mk_client = || {
+                                let mut r = ruma_client_api::directory::get_public_rooms_filtered::v3::Request::new();
+                                r.server = server.map(|s| ruma_common::OwnedServerName::try_from(s).unwrap());
+                                r.limit = limit.map(Into::into);
+                                r.since = since.clone();
+                                r.filter = filter.clone();
+                                r.room_network = network.clone();
+                                r
+                            };
+                            let mk_fed = || {
+                                let mut r = ruma_federation_api::directory::get_public_rooms_filtered::v1::Request::new();
+                                r.limit = limit.map(Into::into);
+                                r.since = since.clone();
+                                r.filter = filter.clone();
+                                r.room_network = network.clone();
+                                r
+                            };
+                            let r = std::panic::catch_unwind(std::panic::AssertUnwindSafe(|| -> Result<(), Value> {
+                                let want = format!("{:?}", mk_client());
+                                let h = mk_client().try_into_http_request::<Vec<u8>>("https://h.tld", SendAccessToken::IfRequired("tok"), &[MatrixVersion::V1_1]).map_err(|e| json!({"stage": "encode", "error": e.to_string()}))?;
+                                let m1 = msg(&h);
+                                let none: [String; 0] = [];
+                                let back = ruma_client_api::directory::get_public_rooms_filtered::v3::Request::try_from_http_request(h, &none).map_err(|e| json!({"stage": "decode", "error": e.to_string(), "message": m1}))?;
+                                if format!("{back:?}") != want {
+                                    return Err(json!({"endpoint": "client get_public_rooms_filtered", "stage": "compare", "sent": want, "decoded": format!("{back:?}"), "message": m1}));
+                                }
+                                let again = back.try_into_http_request::<Vec<u8>>("https://h.tld", SendAccessToken::IfRequired("tok"), &[MatrixVersion::V1_1]).map_err(|e| json!({"stage": "re-encode", "error": e.to_string()}))?;
+                                if msg(&again) != m1 {
+                                    return Err(json!({"endpoint": "client get_public_rooms_filtered", "stage": "compare", "why": "re-encoding differs", "first": m1, "second": msg(&again)}));
+                                }
+                                let want = format!("{:?}", mk_fed());
+                                let h = mk_fed().try_into_http_request::<Vec<u8>>("https://h.tld", SendAccessToken::IfRequired("tok"), &[MatrixVersion::V1_1]).map_err(|e| json!({"stage": "encode", "error": e.to_string()}))?;
+                                let m1 = msg(&h);
+                                let back = ruma_federation_api::directory::get_public_rooms_filtered::v1::Request::try_from_http_request(h, &none).map_err(|e| json!({"stage": "decode", "error": e.to_string(), "message": m1}))?;
+                                if format!("{back:?}") != want {
+                                    return Err(json!({"endpoint": "federation get_public_rooms_filtered", "stage": "compare", "sent": want, "decoded": format!("{back:?}"), "message": m1}));
+                                }
+                                Ok(())
+                            }));
+                            match r {
+                                Err(_) => fail(&mut f_panic, json!({"endpoint": "get_public_rooms_filtered", "observed": "panic"})),
+                                Ok(Err(e)) => fail(&mut f_req, json!({"failure": e})),
+                                Ok(Ok(())) => {}
+                            }
+                        }
+                    }
+                }
+            }
+        }
+    }
     Report {
         bound: format!("3 synthetic endpoints (path x2, query incl. optional and multi-valued, header, JSON body incl. optional field, newtype body, raw body, status override 302): 11^3 (path, query, body) triples x 3 version sets x 3 optional-field shapes and the other endpoints' value lists: {n} round trips"),
         cases: n,
